@@ -348,6 +348,9 @@ func (e *env) runServer(nominal *session, T []byte, mode string) (v verdict) {
 	v.Fail, v.Detail = e.judgeData("server", G, T, d)
 	if d.eof {
 		v.Outcome = "request+eof"
+		if G.insideRecord(T) {
+			v.Outcome += "(stream cut inside a length/payload record)"
+		}
 	} else {
 		v.Outcome = "request+error"
 	}
@@ -392,6 +395,9 @@ func (e *env) runClient(x *session, T []byte, mode string) (v verdict) {
 	switch {
 	case d.eof:
 		v.Outcome = "eof"
+		if G.insideRecord(T) {
+			v.Outcome += "(stream cut inside a header/length/payload record)"
+		}
 	default:
 		v.Outcome = "error"
 	}
